@@ -258,7 +258,7 @@ def run(tier, rep):
              "exempt_max": (2 << 20) if tier == "quick" else (8 << 20), "big": i % 3 == 0, "runtime": ["multi:8", "multi:8", "multi:4", "current"][i % 4], "stress": 0 if i % 4 == 3 else 8} for i in range(shards)]
     if tier == "thorough":
         # memcheck slice: ~25x slower, so 1/50 of a shard, no CPU burners, generous socket timeouts
-        args.append({"shard": 1000, "tier": tier, "connections": 24, "concurrency": 4, "max_per_conn": 6, "exempt_max": 1 << 20, "big": True, "runtime": "multi:2", "stress": 0, "memcheck": True})
+        args.append({"shard": 1000, "tier": tier, "connections": 120, "concurrency": 4, "max_per_conn": 6, "exempt_max": 1 << 20, "big": True, "runtime": "multi:2", "stress": 0, "memcheck": True})
     for res in sandbox.run_many("vf.props.c14", "worker", args, workers=shards, timeout=3000):
         rep.merge_worker(res)
     rep.assumptions += ["header order across different names and header-name letter case are not compared (no meaning in HTTP; hyper normalises names)",
